@@ -239,9 +239,17 @@ def canSkip : GSpec → Bool
 def noSkipBelow (below : Bool) : GSpec → List V → Bool
   | .fn f, its => !below || its.all (fun x => !(isSkip (f.val x)))
   | .nested g, its =>
-    !(below && canSkip g) && its.all (fun x => noSkipBelow false g ((iterOf x).getD []))
+    (its.isEmpty || !(below && canSkip g)) && its.all (fun x => noSkipBelow false g ((iterOf x).getD []))
   | .dict _ _ _ sub, its => noSkipBelow true sub its
   | .limit _ _ sub, its => noSkipBelow below sub its
+  | _, _ => true
+
+/-- no STOP event in the runs of nested Groups either (then `implTop` is the property's reference) -/
+def nestedFree : GSpec → List V → Bool
+  | .nested g, its =>
+    its.all (fun x => eventFree g ((iterOf x).getD []) && nestedFree g ((iterOf x).getD []))
+  | .dict _ _ _ sub, its => nestedFree sub its
+  | .limit _ _ sub, its => nestedFree sub its
   | _, _ => true
 
 /-- **H2' (the slot of `acc`)**: no bucket key equals `id()` of its own spec dict.  (A bucket
